@@ -50,6 +50,20 @@ namespace dzn
     pump(const pump&) = delete;
     pump& operator=(const pump&) = delete;
 
+    // as in Dezyne: stop the worker thread for good (pending closures are dropped)
+    void stop()
+    {
+      {
+        std::unique_lock<std::mutex> lock(m_mutex);
+        m_stop = true;
+        m_stop_called = true;
+      }
+      m_cv.notify_all();
+      if (m_worker.joinable() && std::this_thread::get_id() != m_worker.get_id()) m_worker.join();
+    }
+    // harness-only observer (not part of the Dezyne API)
+    bool verif_stopped() const { std::unique_lock<std::mutex> lock(m_mutex); return m_stop_called; }
+
     // post a closure (returns immediately)
     void operator()(const std::function<void()>& f) { post(f, false); }
 
@@ -128,6 +142,7 @@ namespace dzn
     std::condition_variable m_cv;
     std::deque<std::function<void()>> m_queue;
     bool m_stop;
+    bool m_stop_called = false;
     size_t m_grants, m_executed, m_posted, m_started = 0;
     bool m_running;
     std::thread m_worker;
